@@ -66,6 +66,23 @@ def walk_no_nested(node):
             stack.append(c)
 
 
+def clone(node):
+    """Structural copy of an AST (fields + positions only; the loader's
+    ``_parent`` back links are NOT followed, unlike copy.deepcopy)."""
+    if isinstance(node, list):
+        return [clone(x) for x in node]
+    if not isinstance(node, ast.AST):
+        return node
+    new = type(node)()
+    for f in node._fields:
+        if hasattr(node, f):
+            setattr(new, f, clone(getattr(node, f)))
+    for a in ('lineno', 'col_offset', 'end_lineno', 'end_col_offset'):
+        if hasattr(node, a):
+            setattr(new, a, getattr(node, a))
+    return new
+
+
 def subst(expr, env):
     """Copy of ``expr`` with Load-Names replaced by env[name] (ASTs)."""
     if not env:
@@ -75,10 +92,10 @@ def subst(expr, env):
 
         def visit_Name(self, n):
             if isinstance(n.ctx, ast.Load) and n.id in env:
-                return copy.deepcopy(env[n.id])
+                return clone(env[n.id])
             return n
 
-    return T().visit(copy.deepcopy(expr))
+    return T().visit(clone(expr))
 
 
 def rename(expr, mapping):
@@ -92,7 +109,7 @@ def rename(expr, mapping):
                                          n)
             return n
 
-    return T().visit(copy.deepcopy(expr))
+    return T().visit(clone(expr))
 
 
 def params_of(func):
